@@ -23,7 +23,48 @@ use std::sync::Arc;
 use std::time::{Duration, Instant};
 
 pub fn streams() -> Vec<Stream> {
-    vec![Stream { name: "batcher_blocking", gen: gen_blocking, run: run_blocking }]
+    vec![
+        // everything (all oracles) — for replays and debugging
+        Stream { name: "batcher_blocking", gen: gen_all, run: run_blocking },
+        // C07: blocking_flush results; C09: blocking_send results; C08: returned (in time) or panicked, every call
+        Stream { name: "batcher_blocking_c07", gen: gen_flush, run: run_c07 },
+        Stream { name: "batcher_blocking_c08", gen: gen_all, run: run_c08 },
+        Stream { name: "batcher_blocking_c09", gen: gen_send, run: run_c09 },
+    ]
+}
+
+fn keep_fails(full: &str, prefix: &str, map_out: impl Fn(&str) -> String) -> String {
+    let (out, fails) = match full.split_once('\t') {
+        Some((o, f)) => (o, Some(f)),
+        None => (full, None),
+    };
+    let mut s = if out == "bad-case" { out.to_string() } else { map_out(out) };
+    if let Some(f) = fails {
+        let kept: Vec<&str> = f.trim_start_matches("FAIL:").split('+').filter(|x| x.starts_with(prefix)).collect();
+        if !kept.is_empty() {
+            s.push_str("\tFAIL:");
+            s.push_str(&kept.join("+"));
+        }
+    }
+    s
+}
+fn run_c07(line: &str) -> String {
+    keep_fails(&run_blocking(line), "c07", |o| o.to_string())
+}
+fn run_c09(line: &str) -> String {
+    keep_fails(&run_blocking(line), "c09", |o| o.to_string())
+}
+fn run_c08(line: &str) -> String {
+    keep_fails(&run_blocking(line), "c08", |o| if o == "panic" { "panic".into() } else { "returned".into() })
+}
+fn gen_all(rng: &mut Rng, tier: Tier, n: usize) -> Vec<String> {
+    gen_blocking(rng, tier, n, &["flush", "send"])
+}
+fn gen_flush(rng: &mut Rng, tier: Tier, n: usize) -> Vec<String> {
+    gen_blocking(rng, tier, n, &["flush"])
+}
+fn gen_send(rng: &mut Rng, tier: Tier, n: usize) -> Vec<String> {
+    gen_blocking(rng, tier, n, &["send"])
 }
 
 const SLACK: Duration = Duration::from_millis(1500);
@@ -206,10 +247,10 @@ fn run_blocking(line: &str) -> String {
     s
 }
 
-fn gen_blocking(rng: &mut Rng, tier: Tier, n: usize) -> Vec<String> {
+fn gen_blocking(rng: &mut Rng, tier: Tier, n: usize, ops: &[&str]) -> Vec<String> {
     let mut all = Vec::new();
     for api in ["sync", "tokio"] {
-        for op in ["flush", "send"] {
+        for op in ops.iter().copied() {
             for ctx in ["plain", "mt", "ct"] {
                 for rx in ["live", "stalled", "gone"] {
                     for (cap, prefill) in [(1usize, 0usize), (1, 1), (2, 1), (2, 2), (3, 5)] {
